@@ -1,0 +1,106 @@
+package lexer
+
+import (
+	"io"
+	"unicode/utf8"
+
+	"github.com/moorara/algo/lexer"
+	"github.com/moorara/algo/lexer/input"
+)
+
+// textInput reads the runes of a text that is completely in memory. It implements inputBuffer.
+//
+// The two-buffer reader of the input package loads a half of its buffer whenever the forward pointer arrives at the end of
+// the other half, also when it arrives there again after a retraction, which drops a whole half of the input.
+// It latches the end of the input as soon as it has handed out the last byte and does not undo that when the byte is retracted,
+// and it takes a short read for the end of the input. Giving it a buffer that holds the whole text avoids the first problem,
+// but it allocates two stacks of the size of the buffer for every token, which makes scanning quadratic in the length of the text.
+// A specification is read completely before it is scanned, so the two pointers can simply move over the text.
+type textInput struct {
+	filename string
+	text     []byte
+
+	// lexemeBegin <= forward <= len(text), and text[lexemeBegin:forward] consists of complete, valid runes.
+	lexemeBegin int // Index of the first byte of the current lexeme.
+	forward     int // Index of the next byte to be read.
+
+	offset int // The offset (0-based), total number of runes, before lexemeBegin.
+	line   int // The line number (1-based) before lexemeBegin.
+	column int // The column number (1-based) before lexemeBegin.
+}
+
+func newTextInput(filename string, text []byte) *textInput {
+	return &textInput{
+		filename: filename,
+		text:     text,
+		line:     1,
+		column:   1,
+	}
+}
+
+// Next advances to the next rune in the input and returns it.
+// If the end of the input is reached, it returns the io.EOF error.
+func (i *textInput) Next() (rune, error) {
+	if i.forward == len(i.text) {
+		return 0, io.EOF
+	}
+
+	r, size := utf8.DecodeRune(i.text[i.forward:])
+	if r == utf8.RuneError && size == 1 {
+		return 0, &input.InputError{
+			Description: "invalid utf-8 character",
+			Pos:         i.pos(true),
+		}
+	}
+
+	i.forward += size
+
+	return r, nil
+}
+
+// Retract recedes to the last rune in the input.
+func (i *textInput) Retract() {
+	_, size := utf8.DecodeLastRune(i.text[i.lexemeBegin:i.forward])
+	i.forward -= size
+}
+
+// Lexeme returns the current lexeme alongside its position.
+func (i *textInput) Lexeme() (string, lexer.Position) {
+	lexeme := string(i.text[i.lexemeBegin:i.forward])
+	return lexeme, i.Skip()
+}
+
+// Skip skips over the pending lexeme in the input and returns its position.
+func (i *textInput) Skip() lexer.Position {
+	pos, next := i.pos(false), i.pos(true)
+
+	i.offset, i.line, i.column = next.Offset, next.Line, next.Column
+	i.lexemeBegin = i.forward
+
+	return pos
+}
+
+// pos returns the position of lexemeBegin, or the position of forward if the pending lexeme is included.
+func (i *textInput) pos(pending bool) lexer.Position {
+	pos := lexer.Position{
+		Filename: i.filename,
+		Offset:   i.offset,
+		Line:     i.line,
+		Column:   i.column,
+	}
+
+	if pending {
+		for _, r := range string(i.text[i.lexemeBegin:i.forward]) {
+			if r == '\n' {
+				pos.Line++
+				pos.Column = 1
+			} else {
+				pos.Column++
+			}
+
+			pos.Offset++
+		}
+	}
+
+	return pos
+}
